@@ -6,8 +6,8 @@
    (1..n objectives, any weights), any similarity operator meeting the stated hypotheses.
    The archive stores values (deep copies); see the level note for what that means. *)
 From Coq Require Import List ZArith Bool.
-From DV Require Import Base.PyTuple Base.PyList Model.C01_Fitness Model.C08_Archive
-  Proofs.C08_Lists Proofs.C08_Refine Proofs.C08_Hof Proofs.C08_Pf Proofs.C08_More.
+From DV Require Import Base.PyTuple Base.PyList Model.C01_Fitness Model.C08_Archive Model.C08_Heap
+  Proofs.C08_Lists Proofs.C08_Refine Proofs.C08_Hof Proofs.C08_Pf Proofs.C08_More Proofs.C08_HeapSim.
 Import ListNotations.
 Local Open Scope Z_scope.
 
@@ -143,6 +143,24 @@ Theorem C08_pf_exact :
        fitness a = fitness b -> similar a b = false).
 Proof. exact pf_exact_thm. Qed.
 Print Assumptions C08_pf_exact.
+
+(* ---------------------------------------------------------------- deep copies *)
+
+(* Heap-level model (Model/C08_Heap.v): individuals are mutable objects in a store, populations and
+   the archive hold references, the user may overwrite any of his nu objects in place at any moment
+   (HSet), insert copies by allocating a fresh object.  For every such history (either class, any
+   similarity operator reading the objects, exceptions included) what an observer sees of the
+   archive after every step -- the fitness values behind the keys and the objects behind the items,
+   read through the store -- is the value-level archive (the model of all theorems above) fed with
+   the snapshots of the submitted objects taken at each call; an in-place modification (HSet) leaves
+   it unchanged (vtrace emits the same state).  Hence members are unaffected by later changes to
+   the populations, and every theorem above holds for the heap-level archive's view. *)
+Theorem C08_deepcopy_independent :
+  forall (sim : obj -> obj -> bool) (nu : nat) (kind : option Z) (u : heap) (hops : list hop),
+  length u = nu -> Forall (hop_ok nu) hops ->
+  map (option_map view) (h_trace sim kind (u, mkharch [] []) hops) = vtrace sim kind u empty hops.
+Proof. exact heap_simulation_init. Qed.
+Print Assumptions C08_deepcopy_independent.
 
 (* ---------------------------------------------------------------- the rest of the interface *)
 
